@@ -11,3 +11,35 @@ Theorem C10_delivered_frames_decide :
                  (last_err (decode_frames ig ak po fs1 st) <> None -> tail = []).
 Proof. exact frames_prefix. Qed.
 Print Assumptions C10_delivered_frames_decide.
+
+From PJ.Model Require Import Wire.
+From PJ.Proofs Require Import WireProofs.
+
+(* Byte level.  [readable f] is the wire round trip of one frame (parse (ser f) = f, size below
+   2^70), the part tied to protobuf by the correspondence check.  For frames that have it: the
+   whole delimited stream reads back as its frames ... *)
+Theorem C10_delimited_stream_reads_back :
+  forall fs : list frame, Forall readable fs -> read_frames (write_delimited fs) = (fs, FiEof).
+Proof. exact read_frames_delimited. Qed.
+Print Assumptions C10_delimited_stream_reads_back.
+
+(* ... and a stream cut at ANY byte offset strictly inside a frame -- inside its length prefix or
+   inside its body -- reads back as exactly the frames wholly before the cut followed by an error:
+   never a frame made from the delivered part, never a frame lost. *)
+Theorem C10_cut_inside_a_frame :
+  forall (fs1 : list frame) (f : frame) (j : nat),
+    Forall readable fs1 -> readable f -> (0 < j < length (write_delimited1 f))%nat ->
+    read_frames (write_delimited fs1 ++ firstn j (write_delimited1 f)) = (fs1, FiError).
+Proof. exact read_frames_truncated. Qed.
+Print Assumptions C10_cut_inside_a_frame.
+
+(* the length prefix itself: round trip for every size below 2^70, and no proper prefix of it decodes *)
+Theorem C10_varint_round_trip :
+  forall (n : N) (rest : list N), n < varint_max -> varint_dec (varint n ++ rest) = Some (n, rest).
+Proof. exact varint_round_trip. Qed.
+Print Assumptions C10_varint_round_trip.
+
+Theorem C10_varint_proper_prefix_fails :
+  forall (n : N) (j : nat), (j < length (varint n))%nat -> varint_dec (firstn j (varint n)) = None.
+Proof. exact varint_proper_prefix. Qed.
+Print Assumptions C10_varint_proper_prefix_fails.
